@@ -14,7 +14,10 @@ Faithful(a, m) ==
               fish |-> a.fish, meat |-> a.meat, milk |-> Zero, immediate_outdoor_crops |-> a.outdoor_crops,
               new_stored_outdoor_crops |-> Zero]
   IN [ev |-> "Month", m |-> m, alloc |-> a, reported |-> a, keq |-> keq, csv |-> keq,
-      fed |-> SumF(a, 9)]
+      fed |-> SumF(a, 9), hasUse |-> TRUE,
+      \* (a faithful report of the other two uses: one food goes to feed, nothing to biofuel)
+      useAlloc |-> [f \in {"stored_food", "outdoor_crops", "seaweed", "cell_sugar", "scp"} |-> [feed |-> IF f = "outdoor_crops" THEN a.fish ELSE Zero, bio |-> Zero]],
+      useKeq |-> [f \in {"stored_food", "outdoor_crops", "seaweed", "cell_sugar", "scp"} |-> [feed |-> IF f = "outdoor_crops" THEN a.fish ELSE Zero, bio |-> Zero]]]
 Alloc(s, o, w, f, me) == [stored_food |-> s, outdoor_crops |-> o, seaweed |-> w, cell_sugar |-> Zero, scp |-> Zero,
                           greenhouse |-> Zero, fish |-> f, meat |-> me, milk |-> Zero]
 Sums == {SumF(Alloc(s, o, w, f, me), 9) : s \in V, o \in V, w \in V, f \in V, me \in {I(0), I(1)}}
